@@ -242,7 +242,9 @@ def handle (s : St) (line : String) : St :=
         else if kind == "eh" then some (loadEntryHash cid k sr.log.id fetched nI)
         else if kind == "json" then some (loadJSON cid k sr.log.id fetched nI)
         -- in-memory copies through `NewLog` (entries and, except `cpG`, heads handed over)
-        else if kind == "cpE" || kind == "cpV" then some (newLog sr.log.id cid k sr.log.entries heads)
+        else if kind == "cpE" then some (newLog sr.log.id cid k sr.log.entries heads)
+        -- `cpV` hands over the linearisation (for a trimmed log not every entry is reachable from the heads)
+        else if kind == "cpV" then some (newLog sr.log.id cid k (values sr.log) heads)
         else if kind == "cpG" then some (newLog sr.log.id cid k sr.log.entries [])
         else loadEntries cid k heads fetched nI
       match lg with
